@@ -192,6 +192,9 @@ class Group:
                 if id in self:
                     raise ValueError(f"already have gateway with id {id!r}")
                 spec.id = id
+        elif isinstance(spec.id, str) and not spec.id:
+            # _register() asserts a non-empty id: refuse before a process exists
+            raise ValueError("gateway id must not be empty")
         elif isinstance(spec.id, str) and spec.id in self:
             # refuse a taken id before makegateway starts a process for it
             raise ValueError(f"already have gateway with id {spec.id!r}")
